@@ -10,7 +10,8 @@
    All theorems hold for every sub-decoder DecodeNumeric (property C05) and every safeString, and for
    whatever bytes follow the slice in memory (tail t). *)
 Require Import PG.Base.Bytes PG.Base.GoSlice PG.Base.Value.
-Require Import PG.C06.JsonbModel PG.C06.JsonbSpec PG.C06.JsonbLib PG.C06.JsonbProofs.
+Require Import PG.C06.JsonbModel PG.C06.JsonbSpec PG.C06.JsonbLib PG.C06.JsonbInst PG.C06.JsonbProofs.
+Require Import PG.C06.JsonbFuelProofs PG.C06.JsonbSafeProofs PG.C06.JsonbHistoricProofs PG.C06.JsonbExamplesProofs.
 
 (* Main theorem: any document, any depth, any container sizes (entry indexes beyond the 32-entry
    offset stride in the key half, the value half or both), empty containers anywhere, scalar or null
@@ -51,3 +52,35 @@ Proof.
   - apply totalLen_spec; assumption.
 Qed.
 Print Assumptions C06_entries.
+
+(* The model's recursion fuel (len(data)+1) suffices on EVERY input, and — after the negative-length
+   guard — no input whatsoever (any bytes, any capacity tail) makes the decoder panic: it always
+   returns a value.  (C10's share for jsonb.go.) *)
+Theorem C06_total : forall DecodeNumeric s, exists v, ParseJSONB DecodeNumeric s = JOk v.
+Proof. exact ParseJSONB_total. Qed.
+Print Assumptions C06_total.
+Theorem C06_oid_total : forall DecodeNumeric safeString s,
+  exists v, DecodeType_jsonb DecodeNumeric safeString s = JOk v.
+Proof. exact DecodeType_jsonb_total. Qed.
+Print Assumptions C06_oid_total.
+
+(* The unrepaired code (historic model) violated the property: D20 empty containers -> nil,
+   D21 objects with >= 17 pairs, D22 null root -> raw bytes.  Witnesses by vm_compute. *)
+Theorem C06_empty_refuted :
+  exists j, wf_json j /\ ParseJSONB_h num_token (exact (enc_jsonb j)) <> JOk (expected num_token j).
+Proof. exact historic_empty_refuted. Qed.
+Print Assumptions C06_empty_refuted.
+Theorem C06_pairs17_refuted :
+  exists j, wf_json j /\ ParseJSONB_h num_token (exact (enc_jsonb j)) <> JOk (expected num_token j).
+Proof. exact historic_pairs17_refuted. Qed.
+Print Assumptions C06_pairs17_refuted.
+Theorem C06_null_refuted :
+  exists j, wf_json j /\ DecodeType_jsonb_h num_token raw_token (exact (enc_jsonb j)) <> JOk (expected num_token j).
+Proof. exact historic_null_refuted. Qed.
+Print Assumptions C06_null_refuted.
+
+(* Non-vacuity: a 40-pair object holding a 70-element array of mixed scalars, {} and [] is well-formed
+   (so C06_roundtrip applies to it), as is the document null. *)
+Theorem C06_example_wf : wf_json ex_big /\ wf_json JNull.
+Proof. exact (conj ex_big_wf ex_null_wf). Qed.
+Print Assumptions C06_example_wf.
